@@ -215,6 +215,14 @@ func errPassThrough(f *ssa.Function, depth int) string {
 var atomAlias = map[*ssa.Program]map[string]aliasT{}
 var atomAliasMu sync.RWMutex
 
+// ReleaseProgram forgets what is cached for a loaded program (the table is keyed by the program, which it would
+// otherwise keep alive for the life of the process).
+func ReleaseProgram(prog *ssa.Program) {
+	atomAliasMu.Lock()
+	delete(atomAlias, prog)
+	atomAliasMu.Unlock()
+}
+
 type aliasT struct {
 	atom string
 	same bool
